@@ -204,6 +204,15 @@ def main(tier, seed):
             n = 3 + (it_ // 4) % 2
             bases = [base_matrix(rng, n, perm=[(i + 1 + (p_ + it_ // 8) % (n - 1)) % n for i in range(n)]) for p_ in range(P)]
             rep.count('scheduled', 'cyclic row permutation')
+        if it_ % 4 == 3:
+            # scheduled: direction 0 has an EXACTLY triangular / diagonal base matrix while the other directions are full (structure
+            # decisions taken from one direction must not be applied to the others)
+            n = 2 + (it_ // 4) % 3; P = max(P, 2)
+            tri = ['upper', 'lower', 'diagonal'][(it_ // 4) % 3]
+            B0 = numpy.array([[rng.randint(-4, 4) / 4 for _ in range(n)] for _ in range(n)]) + numpy.diag([rng.choice([2.0, 3.0, -2.0]) for _ in range(n)])
+            B0 = numpy.triu(B0) if tri == 'upper' else (numpy.tril(B0) if tri == 'lower' else numpy.diag(numpy.diag(B0)))
+            bases = [B0] + [base_matrix(rng, n) for _ in range(P - 1)]
+            rep.count('scheduled', 'direction 0 exactly %s' % tri)
         Ad = mat_utpm(rng, D, P, n, n, base=lambda p: bases[p])
         scale = scale_of(Ad)
         A_obj = obj_mats(Ad)
@@ -232,6 +241,8 @@ def main(tier, seed):
         mix = rng.choice(['UU', 'UU', 'aU', 'Ua'])
         if it_ % 4 == 1:
             mix = ['aU', 'UU', 'Ua'][(it_ // 4) % 3]
+        if it_ % 4 == 3:
+            mix = 'UU'
         Bd = mat_utpm(rng, D, P, n, k)
         note_case('solve:' + mix, dict(op='solve', mix=mix, k=k, B=Bd.tolist(), **meta), D >= 2 and n >= 2)
         try:
